@@ -95,6 +95,93 @@ def top_fragments(root):
     return out
 
 
+def add_content(root, what, where):
+    """adds an object that carries no label and no chemistry of the labelled fragments: a lone-atom
+    (bond-less) fragment, an unlabelled bonded fragment far away, a text that is not bold, an empty group."""
+    ids = [int(e.get("id")) for e in root.iter() if (e.get("id") or "").isdigit()]
+    nid = [max(ids, default=0) + 1000]
+
+    def new_id():
+        nid[0] += 1
+        return str(nid[0])
+
+    page = root.find("./page")
+    cs = []
+    for fr in top_fragments(root):
+        bb = fr.get("BoundingBox")
+        if bb:
+            l, t, r, b = map(float, bb.split())
+            cs.append(((l + r) / 2, (t + b) / 2))
+    xs = [c[0] for c in cs] or [100.0]
+    ys = [c[1] for c in cs] or [100.0]
+    if what == "lone-atom":
+        x, y = min(xs) - 40.0, min(ys) - 40.0
+        if where == "middle":
+            x, y = (min(xs) + max(xs)) / 2 + 3.3, (min(ys) + max(ys)) / 2 + 2.2
+        obj = ET.Element("fragment", {"id": new_id(), "BoundingBox": f"{_fmt(x - 4)} {_fmt(y - 4)} {_fmt(x + 4)} {_fmt(y + 4)}", "Z": "9000"})
+        n = ET.SubElement(obj, "n", {"id": new_id(), "p": f"{_fmt(x)} {_fmt(y)}", "Z": "9001", "Element": "11", "NumHydrogens": "0", "AS": "N"})
+        t = ET.SubElement(n, "t", {"p": f"{_fmt(x - 3)} {_fmt(y + 3)}", "BoundingBox": f"{_fmt(x - 3)} {_fmt(y - 4)} {_fmt(x + 4)} {_fmt(y + 3)}"})
+        ET.SubElement(t, "s", {"font": "3", "size": "10", "face": "96"}).text = "Na"
+    elif what == "far-fragment":
+        x, y = max(xs) + 3000.0, max(ys) + 3000.0
+        obj = ET.Element("fragment", {"id": new_id(), "BoundingBox": f"{_fmt(x)} {_fmt(y)} {_fmt(x + 10.8)} {_fmt(y + 1)}", "Z": "9000"})
+        a, b = new_id(), new_id()
+        ET.SubElement(obj, "n", {"id": a, "p": f"{_fmt(x)} {_fmt(y)}", "Z": "9001", "AS": "N"})
+        ET.SubElement(obj, "n", {"id": b, "p": f"{_fmt(x + 10.8)} {_fmt(y)}", "Z": "9002", "AS": "N"})
+        ET.SubElement(obj, "b", {"id": new_id(), "Z": "9003", "B": a, "E": b, "BS": "N"})
+    elif what == "plain-text":
+        x, y = min(xs) - 30.0, min(ys) - 30.0
+        obj = ET.Element("t", {"id": new_id(), "p": f"{_fmt(x)} {_fmt(y)}", "BoundingBox": f"{_fmt(x)} {_fmt(y - 8)} {_fmt(x + 30)} {_fmt(y)}", "Z": "9000"})
+        ET.SubElement(obj, "s", {"font": "3", "size": "10", "face": "0"}).text = "a remark"
+    elif what == "empty-group":
+        x, y = min(xs) - 20.0, min(ys) - 20.0
+        obj = ET.Element("group", {"id": new_id(), "BoundingBox": f"{_fmt(x)} {_fmt(y)} {_fmt(x + 5)} {_fmt(y + 5)}", "Z": "9000"})
+    else:  # pragma: no cover
+        raise HarnessError(f"unknown content {what}")
+    ch = list(page)
+    if what == "lone-atom" and where == "between-labels-and-fragments":
+        # one lone atom between every label and the fragment drawn above it: nearer to the label than
+        # its fragment, so only its being bond-less keeps it from being chosen
+        from mc.props.c13_walk import centre_of, is_label
+
+        labels = [t for holder in [page] + page.findall("./group") for t in holder if t.tag == "t" and is_label(t)]
+        frs = [(centre_of(fr), fr) for fr in top_fragments(root) if centre_of(fr)]
+        for t in labels:
+            lc = centre_of(t)
+            above = [(abs(c[0] - lc[0]) + abs(c[1] - lc[1]), c) for c, _ in frs if c[1] < lc[1]]
+            if not lc or not above:
+                continue
+            fc = min(above)[1]
+            x, y = lc[0] + 0.35 * (fc[0] - lc[0]), lc[1] + 0.35 * (fc[1] - lc[1])
+            o = ET.Element("fragment", {"id": new_id(), "BoundingBox": f"{_fmt(x - 2)} {_fmt(y - 2)} {_fmt(x + 2)} {_fmt(y + 2)}", "Z": "9000"})
+            ET.SubElement(o, "n", {"id": new_id(), "p": f"{_fmt(x)} {_fmt(y)}", "Z": "9001", "Element": "3", "NumHydrogens": "0", "AS": "N"})
+            page.insert(0, o)
+        return
+    if where == "first":
+        page.insert(0, obj)
+    elif where == "last":
+        page.append(obj)
+    elif where == "middle":
+        page.insert(len(ch) // 2, obj)
+    elif where in ("new-group-first", "new-group-last"):
+        g = ET.Element("group", {"id": new_id(), "BoundingBox": obj.get("BoundingBox"), "Z": "8999"})
+        g.append(obj)
+        if where.endswith("first"):
+            page.insert(0, g)
+        else:
+            page.append(g)
+    elif where == "existing-group":
+        gs = page.findall("./group")
+        if gs:
+            gs[0].insert(0, obj)
+        else:
+            g = ET.Element("group", {"id": new_id(), "BoundingBox": obj.get("BoundingBox"), "Z": "8999"})
+            g.append(obj)
+            page.insert(len(ch) // 2, g)
+    else:  # pragma: no cover
+        raise HarnessError(f"unknown place {where}")
+
+
 def build_variant(src, steps, dst):
     """Writes the rewritten drawing; returns {new id: original id}."""
     tree = ET.parse(src)
@@ -184,6 +271,8 @@ def build_variant(src, steps, dst):
                 elif n.get("AtomNumber") is None and (st[1] == "add-all" or (st[1] == "add-ap" and is_ap) or (st[1] == "add-atoms" and not is_ap)):
                     n_new += 1
                     n.set("AtomNumber", f"L{n_new}")
+        elif kind == "add":
+            add_content(root, st[1], st[2])
         elif kind == "identity":
             pass
         else:  # pragma: no cover
@@ -201,6 +290,8 @@ def vclass(steps):
             names.append("permute")
         elif st[0] == "atomnumber":
             names.append(f"atomnumber-{st[1]}")
+        elif st[0] == "add":
+            names.append(f"add-{st[1]}")
         else:
             names.append(st[0])
     return "+".join(names) if names else "identity"
@@ -460,8 +551,31 @@ class FragGraph:
 recs_dups: dict = {}  # id(recs dict) -> labels the drawing carries more than once
 
 
+def mirror_class(fr, g):
+    """the kinds of stereo marks of a fragment for which mirroring the marks must give the exact
+    z -> -z image of the model; None where the parser's own conventions rule that out: a wedge mark on
+    a ring bond (the documented ring-fusion displacement also moves y by sign * 0.5), marks inside a
+    contracted group (the group is re-oriented by a clash search when joined), multi-attachments."""
+    if fr.hapto:
+        return None
+    kinds = set()
+    for i, b in enumerate(fr.bonds):
+        if b.display in WEDGES:
+            if i in g.ring or len(b.key) > 2:
+                return None
+            kinds.add("chain-wedge")
+        elif b.display in ("Bold", "Hash"):
+            if len(b.key) > 2:
+                return None
+            kinds.add("bold-hash")
+    for inner in fr.elt.findall("./n/fragment"):
+        if any(bd.get("Display") in STEREO_DISPLAYS for bd in inner.iter("b")):
+            return None
+    return "+".join(sorted(kinds)) if kinds else None
+
+
 class Rec:
-    __slots__ = ("obs", "picked", "ok", "vols", "const_ok", "digest", "mark")
+    __slots__ = ("obs", "picked", "ok", "vols", "const_ok", "digest", "mark", "mirror_exact")
 
     def __init__(self):
         self.obs = None
@@ -469,6 +583,7 @@ class Rec:
         self.ok = False
         self.vols = {}
         self.const_ok = False
+        self.mirror_exact = None
         self.digest = None
         self.mark = {}
 
@@ -704,6 +819,7 @@ def analyse(ctx, src_name, path, steps, only=None, count=True, base=None):
             viol("geometry:non-finite-coordinates", f"{src_name}[{k!r}]: coordinates are not a finite (n,3) array", k)
             continue
         g = FragGraph(fr)
+        r.mirror_exact = mirror_class(fr, g)
         geo_ok = anchors(ctx, viol, src_name, vc, k, fr, g, mapping, coords)
         # signed volumes of every centre of the model (parsed bonds), for the cross-variant relations
         nb = {}
@@ -839,11 +955,22 @@ def compare(ctx, src_name, steps, back, base, var, mirrored_frag_ids=None):
         if [strip(t) for t in rb.obs["atoms"]] != [strip(t) for t in rv.obs["atoms"]] or rb.obs["bonds"] != rv.obs["bonds"] or (rb.obs["charge"], rb.obs["mult"]) != (rv.obs["charge"], rv.obs["mult"]):
             viol(f"variant[{vc}]:constitution-changed", f"{src_name}[{k!r}]: atoms/bonds/charge/multiplicity differ between the bundled file and its {vc} rewrite")
             continue
+        if steps and all(st[0] == "add" for st in steps) and rb.digest is not None and rv.digest != rb.digest:
+            same_const = rb.obs["atoms"] == rv.obs["atoms"] and rb.obs["bonds"] == rv.obs["bonds"]
+            viol(f"variant[{vc}]:result-differs-from-the-untouched-file", f"{src_name}[{k!r}]: an object that carries no label was added to the page ({steps}) and the label now gives a molecule that differs in {'coordinates' if same_const else 'atoms/bonds/name'}")
+            continue
         if not (rb.ok and rv.ok):
             continue
         local_mirror = mirrored
         if mirrored_frag_ids is not None:
             local_mirror = rb.picked in mirrored_frag_ids
+        if local_mirror and rb.mirror_exact and rv.obs["coords"].shape == rb.obs["coords"].shape:
+            dev = np.abs(rv.obs["coords"] * np.array([1.0, 1.0, -1.0]) - rb.obs["coords"])
+            ctx.add_note("exact_mirror_images_checked")
+            if not (np.max(dev) <= 1e-9):
+                worst = int(np.argmax(dev.max(axis=1)))
+                viol(f"variant[{vc}]:model-is-not-the-mirror-image[{rb.mirror_exact}]", f"{src_name}[{k!r}]: the model of the drawing with mirrored stereo marks is not the z -> -z image of the model of the drawing (atom {worst}: deviation {np.round(dev[worst], 4).tolist()} A)")
+                continue
         for key, v in rb.vols.items():
             if not (abs(v) >= T_NONPLANAR):
                 w = rv.vols.get(key)
@@ -921,6 +1048,11 @@ def menu(ctx, path):
     singles += [["permute", "reverse"], ["permute", "rotate", 1 + seed % 7]]
     singles += [["renumber", "offset", 100000 + 1000 * (seed % 50)], ["renumber", "compact"]]
     singles += [["atomnumber", "add-all"], ["atomnumber", "remove-all"]]
+    singles += [["add", "lone-atom", w] for w in ("first", "last", "middle", "new-group-first", "existing-group")]
+    singles += [["add", "lone-atom", "between-labels-and-fragments"]]
+    singles += [["add", "far-fragment", "last"], ["add", "plain-text", "first"], ["add", "empty-group", "first"]]
+    if ctx.thorough:
+        singles += [["add", "lone-atom", "new-group-last"], ["add", "far-fragment", "first"], ["add", "far-fragment", "new-group-first"], ["add", "plain-text", "existing-group"], ["add", "empty-group", "middle"]]
     if ctx.thorough:
         singles += [["atomnumber", "add-ap"], ["atomnumber", "add-atoms"], ["atomnumber", "remove-ap"]]
     variants = [[s] for s in singles]
@@ -928,7 +1060,7 @@ def menu(ctx, path):
         ks = [k for k in range(1, n_top) if k != 1 + seed % 7]
         variants += [[["permute", "rotate", k]] for k in ks]
         variants += [[["permute", "labels-first"]], [["permute", "labels-last"]], [["renumber", "reversed"]]]
-        base = [["mirror"], ["translate", tr[0][0], tr[0][1]], ["translate", tr[1][0], tr[1][1]], ["permute", "reverse"], ["permute", "rotate", 2 + seed % 5], ["permute", "labels-first"], ["renumber", "compact"], ["renumber", "reversed"], ["renumber", "offset", 777000], ["atomnumber", "add-all"], ["atomnumber", "remove-all"]]
+        base = [["mirror"], ["translate", tr[0][0], tr[0][1]], ["translate", tr[1][0], tr[1][1]], ["permute", "reverse"], ["permute", "rotate", 2 + seed % 5], ["permute", "labels-first"], ["renumber", "compact"], ["renumber", "reversed"], ["renumber", "offset", 777000], ["atomnumber", "add-all"], ["atomnumber", "remove-all"], ["add", "lone-atom", "first"], ["add", "far-fragment", "middle"]]
         for a, b in itertools.permutations(base, 2):
             if a[0] == b[0]:
                 continue
@@ -981,6 +1113,8 @@ def run(ctx):
         "a label that the drawing carries more than once (parser_demo: 'naphthalene') is not compared between a file and its reordered rewrites",
         "atom labels: a node drawn with AtomNumber is labelled with it; without one a connection point is labelled 'AP' + ExternalConnectionNum ('AP0' when it has none) and an ordinary atom None (the parser's documented defaults, read off its behaviour on nodes without AtomNumber); compared atom by atom when the molecule matches the drawing in document order, as a multiset otherwise",
         "access histories on one CDXMLFile object: every access (by label or by integer index, after the caller edited an earlier result in place, with other labels in between) must equal the first access as it was before any edit, and must not share atoms, bonds or the coordinate array with a molecule handed out before",
+        "added content: a bond-less (lone atom) fragment, an unlabelled bonded fragment far from everything, a text that is not bold and an empty group carry no label and none of the labelled chemistry: every label must give a molecule equal in full (atoms, labels, bonds, coordinates bit for bit, charge, multiplicity, name) to the one from the untouched file",
+        "exact mirror relation: where all stereo marks of a fragment are plain Bold/Hash bonds or wedges on chain (non-ring) bonds of the outermost fragment, the model of the mirrored drawing must be the z -> -z image of the model coordinate by coordinate (1e-9 A); it is not demanded for wedge marks on ring bonds (the parser's ring-fusion displacement moves y by sign*0.5, 1 A off an exact mirror image on the unchanged tree), for marks inside contracted groups (re-oriented by join's clash search) and for multi-attachments - there only the signs of the signed volumes are compared",
         "atom order is not demanded: the parsed molecule is matched to the drawing in document order and otherwise by graph isomorphism (networkx)",
     ]
     files = bundled_files()
